@@ -32,6 +32,7 @@ import (
 	"sort"
 	"strings"
 	"testing"
+	"time"
 
 	sdkmath "cosmossdk.io/math"
 	storetypes "cosmossdk.io/store/types"
@@ -62,6 +63,8 @@ const (
 	resTx   = 10   // resource id of pool tx k of pool i: resTx*i + k + 1
 	resClm  = 100  // resource id of claim k: resClm + k
 	ampleGL = 6_000_000
+	resAllow   = 300              // resource id of the exact grant owner3 -> pool contract i: resAllow + i
+	exactAllow = 7_000_000_000_000_000 // shares owner3 allows every pool contract
 )
 
 type env struct {
@@ -69,6 +72,7 @@ type env struct {
 	signer   *helpers.Signer
 	owner    *helpers.Signer // EOA with a delegation that approved every pool contract
 	owner2   *helpers.Signer // EOA with a tiny delegation and a large allowance for every pool contract
+	owner3   *helpers.Signer // round 5: EOA whose allowance for every pool contract is exactly exactAllow shares (boundary: a transfer that spends the grant to the last share)
 	direct   *helpers.Signer // EOA that calls the precompiles directly (transaction `to` = precompile)
 	sink     common.Address  // receiver of share transfers
 	pool     []common.Address
@@ -109,6 +113,7 @@ func setup(t *testing.T, out *hx.Out) *env {
 	e.signer = s.AddTestSigner(100_000)
 	e.owner = s.AddTestSigner(100_000)
 	e.owner2 = s.AddTestSigner(100_000)
+	e.owner3 = s.AddTestSigner(100_000)
 	e.direct = s.AddTestSigner(1_000_000)
 	e.sink = helpers.GenHexAddress()
 	for _, v := range s.ValAddr {
@@ -138,12 +143,14 @@ func setup(t *testing.T, out *hx.Out) *env {
 	}
 	delegate(e.owner.AccAddress(), s.ValAddr[0], big18(5000))
 	delegate(e.owner2.AccAddress(), s.ValAddr[0], big18(1))
+	delegate(e.owner3.AccAddress(), s.ValAddr[0], big18(1))
 	delegate(e.direct.AccAddress(), s.ValAddr[0], big18(1000))
 	delegate(e.direct.AccAddress(), s.ValAddr[1], big18(1000))
 	e.poolIdx[e.direct.Address()] = nPool
 	for _, a := range append(append([]common.Address{}, e.pool...), e.direct.Address()) {
 		s.App.StakingKeeper.SetAllowance(s.Ctx, s.ValAddr[0], e.owner.AccAddress(), a.Bytes(), big18(100).BigInt())
 		s.App.StakingKeeper.SetAllowance(s.Ctx, s.ValAddr[0], e.owner2.AccAddress(), a.Bytes(), big18(100).BigInt())
+		s.App.StakingKeeper.SetAllowance(s.Ctx, s.ValAddr[0], e.owner3.AccAddress(), a.Bytes(), big.NewInt(exactAllow))
 	}
 	// every account that will call the precompiles has granted the sink an allowance (so that revoking it is a change)
 	for _, a := range append(append(append([]common.Address{}, e.pool...), e.direct.Address()), hookAddrOf(0), hookAddrOf(1)) {
@@ -455,7 +462,7 @@ func (e *env) runWith(pctx sdk.Context, p *program, gasLimit uint64, traced bool
 	}
 	if p.direct && len(p.root) == 0 { // reference run of a direct call that was not kept: no transaction at all
 		o.status = "ok"
-		o.dump = e.dumpCosmos(cctx)
+		o.dump = e.dumpCosmosFor(cctx, p)
 		return o
 	}
 	var tx *evmtypes.MsgEthereumTx
@@ -493,7 +500,7 @@ func (e *env) runWith(pctx sdk.Context, p *program, gasLimit uint64, traced bool
 				}
 			}
 		}
-		o.logs = sb.String()
+		o.logs = p.canonText(sb.String())
 	}
 	ids := make([]int, 0, len(p.nodes))
 	for id := range p.nodes {
@@ -526,15 +533,33 @@ func (e *env) runWith(pctx sdk.Context, p *program, gasLimit uint64, traced bool
 		sort.Ints(o.kept)
 		sort.Ints(o.frames)
 	}
-	o.dump = e.dumpCosmos(cctx)
+	o.dump = e.dumpCosmosFor(cctx, p)
 	return o
 }
 
 // prune returns the program restricted to frames that were kept in the traced run.
 func prune(p *program, tr *evmx.Tracer) *program {
-	q := &program{addrs: p.addrs, meta: p.meta, nodes: p.nodes, ctxOf: p.ctxOf, inner: map[int]*inner{}, direct: p.direct, create: p.create}
+	q := &program{addrs: p.addrs, meta: p.meta, nodes: p.nodes, ctxOf: p.ctxOf, inner: map[int]*inner{}, direct: p.direct, create: p.create, salt: p.salt, child2: p.child2}
 	if len(tr.Frames) == 0 || !tr.Kept(0) {
 		return q
+	}
+	if len(p.salt) > 0 {
+		// round 5: a pruned constructor has another init code, hence (CREATE2) another address: the pruned program gets its own
+		// context map and its own salted addresses (the dumps and logs of both programs name these accounts by node id)
+		q.ctxOf, q.child2 = map[int]common.Address{}, map[int]common.Address{}
+		for id, a := range p.ctxOf {
+			q.ctxOf[id] = a
+		}
+		defer func() {
+			evmx.Walk(q.root, 0, func(n *evmx.Node, _ int) {
+				if n.Op == "call" && q.salt[n.ID] != nil {
+					old := n.To
+					n.To = create2Address(q.ctxOf[n.ID], q.salt[n.ID], assembleX(n.Body, q.create, q.salt))
+					q.retarget(n.Body, old, n.To)
+					q.child2[n.ID] = n.To
+				}
+			})
+		}()
 	}
 	fn := frameNodes(p, tr)
 	keptNode := map[int]bool{}
@@ -713,7 +738,7 @@ func (e *env) progText(p *program, tr *evmx.Tracer) (string, uint64) {
 					stip = 0
 					words := uint64(0)
 					if len(n.OpPcs) > 0 {
-						words = (uint64(len(assembleX(n.Body, p.create))) + 31) / 32
+						words = (uint64(len(assembleX(n.Body, p.create, p.salt))) + 31) / 32
 					}
 					mem := uint64(0)
 					if words > memWords {
@@ -721,6 +746,10 @@ func (e *env) progText(p *program, tr *evmx.Tracer) (string, uint64) {
 						memWords = words
 					}
 					an = 3*3 + 3 + 3*words + mem + 3*2 + 3 + 32000 + 2*words // EIP-3860: 2 gas per word of init code
+					if p.salt[n.ID] != nil {
+						an += 3 + 6*words // CREATE2 (round 5): PUSH salt, Keccak256WordGas per word of init code
+						e.cnt("constructor-frame-create2")
+					}
 					if hasFrame && ok && !bad[key{frame, uint64(n.PcCall)}] {
 						callc += cost[key{frame, uint64(n.PcCall)}]
 						if callc != an {
@@ -919,6 +948,7 @@ func TestC09(t *testing.T) {
 	dir := e.directed(rand.New(rand.NewSource(seed ^ 0x5eed)))
 	dir = append(dir, e.createPrograms(rand.New(rand.NewSource(seed^0xc7ea)))...)
 	dir = append(dir, e.directCalls(rand.New(rand.NewSource(seed^0xd1ec)))...)
+	dir = append(dir, e.directedPairPrograms(rand.New(rand.NewSource(seed^0x9a1f)))...)
 	for pi := 0; pi < nProg+len(dir); pi++ {
 		out.Reset()
 		var p *program
@@ -967,7 +997,7 @@ func TestC09(t *testing.T) {
 			gl = e.directGasPoints(rng, p, intrinsic)
 		}
 		refCache := map[string]*runObs{}
-		before := e.dumpCosmos(pctx)
+		before := e.dumpCosmosFor(pctx, p)
 		nFault := hx.N(3, 10)
 		if pi < len(dir) {
 			nFault = hx.N(8, 20)
@@ -1084,6 +1114,12 @@ func TestC09(t *testing.T) {
 			}
 		}
 	}
+	// round 5: a share of the programs travels through FinalizeBlock + Commit (block_test.go)
+	t0 := time.Now()
+	nb := hx.N(16, 160)
+	phaseBlocks(t, out, seed, nb)
+	out.Stats.Extra["block_phase_seconds"] = int(time.Since(t0).Seconds())
+	out.Stats.Extra["block_phase_programs"] = nb
 }
 
 // the module store every successful call of a state-changing method changes
